@@ -3,7 +3,8 @@ R1 closed-form cash overrides are certainty equivalents of their own forward; R2
 R3 Hedger.price = -criterion.cash(portfolio, target=payoff) on one simulated batch, averaged, no grad by default;
 R4 cash responds to a shift of its input by the same shift; R5 with the entropic risk measure price == loss.
 Added after the seeded-defect rounds: R1t closed-form cash(input, target) == cash(input - target); R2 default search per column (level, bracket ends by value/axis/shape, constant-sample evaluations, degenerate bracket = known finding KF4); R2b the bisect invariants the search relies on (C19.R1-R3).
-Third round: R6 precision of cash() (scalar target, sample count); R5 compares up to x - 0.0 = x."""
+Third round: R6 precision of cash() (scalar target, sample count); R5 compares up to x - 0.0 = x.
+Round 7: R2 the empty bracket for a constant sample is found wherever the search validates its bracket; R3 sees through value-preserving wrappers."""
 import re
 
 import sympy as sp
